@@ -343,7 +343,7 @@ def run(ctx):
     t_gen = time.time() - t_gen
     tick(ctx, "generate_and_build")
     for cid, why in sorted(skipped.items()):
-        c = [c for sk in chosen for c in chosen[sk]][int(cid[1:]) - 1]
+        c = [c for sk in sorted(chosen) for c in chosen[sk]][int(cid[1:]) - 1]
         ctx.note("class skipped, generated mock does not compile (C01's business): names=%s types=%s shape=%s: %s"
                  % (c["names"], c["types"], shape_key(c["shape"]), why))
     plan_classes = {}
@@ -415,8 +415,8 @@ def run(ctx):
             cases_path.unlink()
 
     if hang:
-        # a step that never returns is real behaviour the contract rejects (a call returns its function's results);
-        # confirm it on its own before convicting
+        # a step that never returns is real behaviour the contract rejects (a call returns its function's results):
+        # no replay step made progress for 30 s although every step is a handful of in-memory calls
         ctx.violation({"kind": "hang", "what": "a replayed operation never returned"},
                       {"driver_report": hang, "note": "replay stopped making progress for 30 s; see 'current' for the operations in flight"})
         return {"level": "model_checking", "exhaustive": False}
@@ -452,13 +452,15 @@ def run(ctx):
     if totals["mismatch_distinct"] > totals["mismatch_kept"] and not rej2:
         raise MachineryError("%d distinct mismatching behaviours but only %d op logs were kept and none was rejected: undecided"
                              % (totals["mismatch_distinct"], totals["mismatch_kept"]))
-    selftest_binding(ctx, matching)
+    if not ctx.violations and not ctx.known_hits:
+        selftest_binding(ctx, matching)
     tick(ctx, "trace_validation")
     ctx.cov["traces_validated_against_impl"] += n_ok + n_ok2 + len(rej) + len(rej2)
     ctx.cov["evaluations"] += totals["replays"]
     ctx.cov["distinct_nontrivial"] = sum(v for k, v in stats["len"].items() if k >= 2)
     ctx.cov["rule"] = ("every transition TLC generated on MatryerMock.tla, exported with a representative history and replayed on "
-                       "each chosen class x both skip-ensure settings; non-trivial = history of >= 2 operations")
+                       "each chosen class (mocks generated with skip-ensure=true: histories of <= 2 operations only); "
+                       "non-trivial = history of >= 2 operations")
     ctx.cov.update({"model_states": model_states, "model_transitions": model_trans, "histories_exported": totals["cases"],
                     "history_length_histogram": {str(k): v for k, v in sorted(stats["len"].items())},
                     "replays": totals["replays"], "replay_steps": totals["steps"], "replays_matching_model": totals["matched"],
@@ -506,13 +508,17 @@ def selftest_binding(ctx, matching):
     b = json.loads(json.dumps(t))
     del b["events"][i]
     b["replay"] = 10 ** 9 + 2
-    for x in (a, b):
+    c = json.loads(json.dumps(t))          # (c) the other mock instance loses its record during the history
+    c["events"][i]["by"]["A"] = []
+    c["replay"] = 10 ** 9 + 3
+    for x in (a, b, c):
         for e in x["events"]:
             e["case"] = x["replay"]
-    n_ok, rej = validate(ctx, [a, b], "self-test (corrupted op logs)")
-    if len(rej) != 2:
-        raise MachineryError("self-test: MatryerMockTrace accepted a corrupted op log (%d of 2 rejected)" % len(rej))
-    ctx.cov["selftest_corrupted_oplogs_rejected"] = 2
+    n_ok, rej = validate(ctx, [a, b, c], "self-test (corrupted op logs)")
+    if len(rej) != 3 or rej[-1].get("clause") != "OtherInstanceUntouched":
+        raise MachineryError("self-test: MatryerMockTrace accepted a corrupted op log (%d of 3 rejected: %s)"
+                             % (len(rej), [r.get("clause") for r in rej]))
+    ctx.cov["selftest_corrupted_oplogs_rejected"] = 3
 
 
 def report(ctx, rj, live, kind):
